@@ -135,7 +135,10 @@ def run(ctx):
         for nm in problems.ALL:
             for kind in KINDS:
                 for _ in range(reps):
-                    base = problems.gen_problem(rng, A, alg_name=nm, box=rng.choice(["finite", "finite", "offset", "big", "fixed"]))
+                    # boxes with fixed coordinates only where the rejection does not depend on the number of free variables
+                    # (a problem whose coordinates are ALL fixed is a valid zero-dimensional problem for every algorithm)
+                    boxes = ["finite", "finite", "offset", "big"] + (["fixed"] if kind in ("noobj", "nullf", "nullopt", "nullx") else [])
+                    base = problems.gen_problem(rng, A, alg_name=nm, box=rng.choice(boxes))
                     q = violate(rng, A, base, kind, ctx.alg)
                     if q:
                         ps.append(q)
